@@ -12,6 +12,7 @@ from symtex import skeleton as K  # noqa: E402
 def scenario_docs():
     """the scenarios named in the properties' why_tests_cant, as explicit skeletons"""
     T = lambda n=1, **o: {'k': 'text', 's': K.H('TEXT', n, **o)}
+    C = lambda s: {'k': 'text', 's': s}
     N = lambda: K.H('NAME', 1)
     cmd = lambda name, *args: {'k': 'cmd', 'name': name, 'args': list(args)}
     br = lambda *b: {'k': 'brace', 'body': list(b)}
@@ -45,6 +46,21 @@ def scenario_docs():
         # nested arguments
         [cmd(N(), br(cmd(N(), bk(T()), br(cmd(N(), br(T()))))))],
         [{'k': 'mathenv', 'name': 'align*', 'body': [T(), cmd(N(), br(T())), {'k': 'lbr', 's': '\\\\'}, T()]}],
+        # \\begin / \\end nested deeper inside a definition body stay commands
+        [{'k': 'def', 'cmd': 'newcommand', 'name': N(), 'nargs': None, 'inner': ('nested-begin', K.H('NAME', 1))}, T()],
+        [{'k': 'def', 'cmd': 'providecommand', 'name': N(), 'nargs': '1', 'inner': ('nested-end', K.H('NAME', 1))}],
+        [{'k': 'def', 'cmd': 'renewcommand', 'name': N(), 'nargs': '2', 'inner': ('begin', K.H('NAME', 1))}, T()],
+        # fixed-signature commands take exactly their signature; a following group is a group of the surroundings
+        [cmd('textbf', br(T())), {'k': 'group', 'body': [T()]}, T()],
+        [cmd('section', bk(T()), br(T())), {'k': 'group', 'body': [cmd(N(), br(T()))]}],
+        [cmd('label', br(T())), {'k': 'group', 'body': []}, cmd('cap'), {'k': 'group', 'body': [T()]}],
+        [math(D, cmd('infty'), {'k': 'group', 'body': [T()]}, cmd('in'), {'k': 'group', 'body': [T()]}, C('x'))],
+        [cmd('noindent'), {'k': 'group', 'body': [T()]}, cmd('textbf', br(cmd(N(), br(T())))), {'k': 'group', 'body': [T()]}],
+        # textually identical siblings with structure below them (views must go by identity, not by text)
+        [cmd('a', br(cmd('b', br(C('x'))))), T(), cmd('a', br(cmd('b', br(C('x')))))],
+        [lst(item([], math(D, C('x')), C('\n')), item([], math(D, C('x')), C('\n')))],
+        [env('e', [], C('p'), {'k': 'group', 'body': [cmd('q', br(C('y')))]}, T(), {'k': 'group', 'body': [cmd('q', br(C('y')))]})],
+        [cmd('c', bk(cmd('a', br(C('x')))), br(cmd('a', br(C('x'))), T())), math(DD, cmd('a', br(C('x'))))],
     ]
     return docs
 
